@@ -19,6 +19,16 @@ claim("C05",
       "Trusted: python ast, sa/ table models, over-approximate field universe (a report means no definition exists at all).",
       "DESIGN.md §4 C05")
 
+claim("C07",
+      "whole-program effect analysis (global/class-level mutable state inventory with alias- and call-propagated "
+      "mutation sites, reset/overwrite classification), table symmetry, nondeterminism-source and set-iteration lints",
+      "Decides the absence, in the current source, of every mechanism by which two runs with equal inputs could "
+      "differ: state surviving a run in module/class-level containers, one-sided language clauses in shared tables, "
+      "clock/random/env/pid/id/hash sources, append-mode files, iteration over sets, mutated shared defaults. "
+      "Byte equality of actual runs is not executed.",
+      "Trusted: python ast; own call resolution (module functions, self.methods via MRO, unique names); dict order is insertion order.",
+      "DESIGN.md §4 C07")
+
 PENDING = "check not built yet in this session (fail-closed: not claimed until its rules run clean)"
-for _p in ["C01","C02","C03","C06","C07","C08","C09","C10","C11","C12","C13","C14","C15","C16","C17","C18"]:
+for _p in ["C01","C02","C03","C06","C08","C09","C10","C11","C12","C13","C14","C15","C16","C17","C18"]:
     na(_p, PENDING)
